@@ -48,7 +48,16 @@ THEOREMS = ["PermInv.counts_perm", "PermInv.counts_spec", "PermInv.target_rates_
             "PermInv.stat_perm_cells_index", "PermInv.stat_perm_cells_events", "PermInv.counts_relabel",
             "PermInv.seeded_bit_identical", "PermInv.seeded_bit_identical_binary",
             "PermInv.lookup_perm", "PermInv.lookup_no_memory", "PermInv.lookup_first_hit", "PermInv.lookup_edge",
-            "PermInv.inplace_reorder_counts", "PermInv.inplace_session", "PermInv.inplace_session_lookup"]
+            "PermInv.inplace_reorder_counts", "PermInv.inplace_session", "PermInv.inplace_session_lookup",
+            # wave 4 (Properties/C20_Concrete.lean): the concrete models of C03, C05, C16, C10, C07, C13
+            "PermInv.Concrete.gridding_counts_perm", "PermInv.Concrete.gridding_smc_perm",
+            "PermInv.Concrete.gridding_pipeline_perm", "PermInv.Concrete.poisson_jointLL_perm",
+            "PermInv.Concrete.poisson_stat_perm", "PermInv.Concrete.poisson_testStat_perm_events",
+            "PermInv.Concrete.magMarginal_perm", "PermInv.Concrete.magMarginalN_perm",
+            "PermInv.Concrete.poisson_testStat_perm_cells", "PermInv.Concrete.binary_brier_perm",
+            "PermInv.Concrete.binary_brier_perm_cells", "PermInv.Concrete.catalog_meanRates_perm",
+            "PermInv.Concrete.catalog_numberTest_perm", "PermInv.Concrete.catalogNTest_perm",
+            "PermInv.Concrete.forecastIter_accumulate_perm"]
 TRUSTED = ["Lean 4.33 kernel", "axioms: propext, Classical.choice, Quot.sound at most",
            "the (cell, bin) index the region lookup assigns to an event is an input of the model (events are generated "
            "strictly inside cells and bins; the lookup itself is properties C01/C02)",
@@ -799,6 +808,29 @@ class _Corr:
             self.todo.append(("real", f"{tag}/{name}", i, oc["obs"][0], o, None))
 
     @_guard
+    def concrete(self, o, tag, outcomes):
+        """wave 4: the CONCRETE models of C05 / C16 (`PoissonLL.testStat`, `BinaryBrier` statistics - the functions
+        `Properties/C20_Concrete.lean` proves permutation invariant) on this storage order of events / cells"""
+        smc = numpy.zeros((o.nc, o.nb), dtype=int)
+        for c, b in zip(o.ev_cells, o.ev_bins):
+            smc[c, b] += 1
+        d = ";".join(",".join(_fbits(v) for v in row) for row in o.d1)
+        c = ";".join(",".join(str(int(v)) for v in row) for row in smc)
+        for name, mode in (("poisson_L", "L"), ("poisson_CL", "CL"), ("poisson_S", "S"), ("poisson_M", "M")):
+            oc = outcomes.get(name)
+            if oc and "obs" in oc:
+                i = self.drv.ask(f"c05_test {mode} {d} {c}")
+                self.todo.append(("ell", f"{tag}/concrete-C05/{name}", i, oc["obs"][0], o, None))
+                self.run.count("concrete-model:c05_test")
+        if float(o.d1.min()) > 0.0:
+            for name, mode in (("binary_S", "S"), ("binary_CL", "CL"), ("brier", "BO")):
+                oc = outcomes.get(name)
+                if oc and "obs" in oc:
+                    i = self.drv.ask(f"c16_test {mode} {d} {c}")
+                    self.todo.append(("real", f"{tag}/concrete-C16/{name}", i, oc["obs"][0], o, None))
+                    self.run.count("concrete-model:c16_test")
+
+    @_guard
     def normll(self, o, tag, outcomes):
         oc = outcomes.get("cat_S")
         if not oc or "obs" not in oc or oc["status"] != "normal":
@@ -954,6 +986,7 @@ def check_input(run, inp, rng, tag="gen"):
         corr.jointll(base_o, "orig", base)
         corr.tw(base_o, "orig", base)
         corr.binary(base_o, "orig", base)
+        corr.concrete(base_o, "orig", base)
         corr.normll(base_o, "orig", base)
         if qt:
             corr.locate(base_o, "orig")
@@ -990,6 +1023,7 @@ def check_input(run, inp, rng, tag="gen"):
                 corr.locate(o, f"events{k}")
             if k == 0:
                 corr.tw(o, f"events{k}", res)
+                corr.concrete(o, f"events{k}", res)
     for k, p in enumerate(inp["cat_perms"]):
         o, res = variant("catalogs", k, CATALOG, cat_perm=p, share=base_o if k % 2 else None)
         if sane(o, f"cats{k}"):
@@ -1002,6 +1036,7 @@ def check_input(run, inp, rng, tag="gen"):
             if k == 0:
                 corr.jointll(o, f"cells{k}", res)
                 corr.binary(o, f"cells{k}", res)
+                corr.concrete(o, f"cells{k}", res)
                 corr.normll(o, f"cells{k}", res)
     nvar += _inplace_session(run, inp, base_o, base, corr, judge)
     corr.finish()
